@@ -92,6 +92,15 @@ void Logger::processMessage(QtMsgType type, const QMessageLogContext &context,
 
     LogMessage lmsg(type, context, message);
     process(lmsg);
+
+    // Qt aborts the process as soon as the handler returns from a fatal message:
+    // whatever the file sinks still hold in their buffers has to reach the files now
+    if (type == QtFatalMsg) {
+#ifndef QTLOGGER_NO_THREAD
+        if (!ownThreadIsRunning())
+#endif
+            flush();
+    }
 }
 
 QTLOGGER_DECL_SPEC
